@@ -73,6 +73,31 @@ mutual
     | (_, v) :: r => v.refs ++ refsItems r
 end
 
+mutual
+  /-- the keys of a dict literal are distinct (a Python dict display cannot say anything else). -/
+  def VE.keysDistinct : VE → Bool
+    | .node kind _ _ _ items =>
+      (match kind with
+       | .dict => nodupKeys (items.map (·.1))
+       | _ => true) && keysDistinctItems items
+    | .typedList items => keysDistinctItems items
+    | _ => true
+  def keysDistinctItems : List (Key × VE) → Bool
+    | [] => true
+    | (_, v) :: r => v.keysDistinct && keysDistinctItems r
+end
+
+/-- the values an operation offers. -/
+def Op.values : Op → List VE
+  | .new v | .setItem _ _ v | .lAppend _ v | .lInsert _ _ v | .dSetDefault _ _ v => [v]
+  | .lExtend _ vs | .lSetSlice _ _ _ _ vs => vs
+  | .dUpdate _ kvs => kvs.map (·.2)
+  | .rebind _ pairs _ => pairs.map (·.2.2)
+  | _ => []
+
+/-- well-formedness of the *encoding* of a call: dict literals have distinct keys. -/
+def wellKeyed (op : Op) : Bool := op.values.all VE.keysDistinct
+
 def Op.target? : Op → Option Nat
   | .new _ => none
   | .clone _ _ => none
